@@ -1436,8 +1436,36 @@ type BoundObl struct {
 // sysFor builds the constraint system for the program point of instruction at.
 func (fi *FuncInfo) sysFor(at ssa.Instruction) *bsys {
 	s := newBsys(fi)
-	for _, f := range fi.FactsAt(at).Sorted() {
+	facts := fi.FactsAt(at)
+	for _, f := range facts.Sorted() {
 		s.addFact(f)
+	}
+	// unit resolution on disjunctions: (A or B) together with not-A gives B
+	refuted := func(t *Term) bool {
+		if t.K == KUn && t.S == "!" {
+			return facts.Has(t.A[0].Key())
+		}
+		if n := negate(t); n != nil {
+			return facts.Has(normalize(n).Key())
+		}
+		return facts.Has("!" + t.Key())
+	}
+	for _, f := range facts.Sorted() {
+		if f.T.K != KOr || f.Neg {
+			continue
+		}
+		a, b := f.T.A[0], f.T.A[1]
+		asFact := func(t *Term) Fact {
+			if t.K == KUn && t.S == "!" {
+				return Fact{T: t.A[0], Neg: true}
+			}
+			return Fact{T: t}
+		}
+		if refuted(a) {
+			s.addFact(asFact(b))
+		} else if refuted(b) {
+			s.addFact(asFact(a))
+		}
 	}
 	return s
 }
